@@ -4,7 +4,7 @@ CONSTANTS Variant = "ok"
  MCN = 3
  MCTs = {2}
  MCVs = {1}
- PolyMode = "all"
+ PolyMode = "most"
  OrderMode = "canon"
 INVARIANTS TypeOK NoFailure ThresholdIsT Agreement KeyedByShareIdx OwnShareMatches GroupKeyIsSum AnyTRecover AnyTSign BelowThresholdSafe
 CHECK_DEADLOCK TRUE
